@@ -319,6 +319,13 @@ class Taint:
                 if isinstance(a0, (ast.GeneratorExp, ast.ListComp)):
                     return CONT if self.level(a0.elt, fi) >= CONT else NONE
                 return CONT if self.level(a0, fi) >= CONT else NONE
+            if isinstance(e.func, (ast.Subscript, ast.Call)):
+                # `TABLE[key](...)` / `TABLE.get(key, default)(...)`: a direct call through an entry of a dispatch table
+                cs_t = self._table_callables(fi, e.func)
+                if cs_t:
+                    levels = [self.level(a, fi) for a in e.args]
+                    rs = [self._call_into(c_, levels, fi) for c_ in cs_t]
+                    return max(rs) if rs else NONE
             if isinstance(e.func, ast.Name) and (fi.fq, e.func.id) in self.fnvals:
                 # a call through a local that holds an entry of a module-level dispatch table: every entry may be meant
                 levels = [self.level(a, fi) for a in e.args]
